@@ -16,6 +16,51 @@ use std::collections::VecDeque;
 #[cfg(not(kani))]
 thread_local! {
     static VALS: RefCell<VecDeque<Vec<u8>>> = RefCell::new(VecDeque::new());
+    /// model-validation mode: values are generated pseudo-randomly and recorded
+    static FUZZ: RefCell<Option<u64>> = RefCell::new(None);
+    static RECORD: RefCell<Vec<Vec<u8>>> = RefCell::new(Vec::new());
+}
+/// Marker payload: an assumption failed in fuzz mode.
+#[cfg(not(kani))]
+pub struct AssumeFail;
+
+#[cfg(not(kani))]
+pub fn fuzz_begin(seed: u64) {
+    FUZZ.with(|f| *f.borrow_mut() = Some(seed | 1));
+    RECORD.with(|r| r.borrow_mut().clear());
+}
+#[cfg(not(kani))]
+pub fn fuzz_record() -> Vec<Vec<u8>> {
+    RECORD.with(|r| r.borrow().clone())
+}
+#[cfg(not(kani))]
+fn fuzz_bytes(n: usize) -> Option<Vec<u8>> {
+    FUZZ.with(|f| {
+        let mut f = f.borrow_mut();
+        let st = f.as_mut()?;
+        let mut next = || {
+            // xorshift64*
+            *st ^= *st >> 12;
+            *st ^= *st << 25;
+            *st ^= *st >> 27;
+            st.wrapping_mul(0x2545F4914F6CDD1D)
+        };
+        let r = next();
+        let mut v: u64 = next();
+        // bias towards boundary values
+        match r % 8 {
+            0 => v = 0,
+            1 => v = (next() % 4) as u64,
+            2 => v = u64::MAX,
+            3 => v = [0x3000u64, 0x2FFF, 0xFE00, 0xFDFF, 0xFFFF, 0x8000, 0x7FFF, 0x0100, 0x01FF, 0x0025][(next() % 10) as usize],
+            4 => v = 0x2FF0 + next() % 0x30,
+            5 => v = 0xFDF0 + next() % 0x20,
+            _ => {}
+        }
+        let b = v.to_le_bytes()[..n].to_vec();
+        RECORD.with(|r| r.borrow_mut().push(b.clone()));
+        Some(b)
+    })
 }
 
 /// Exit code used by the native replayer when an assumption does not hold for the recorded values.
@@ -34,6 +79,9 @@ pub fn remaining() -> usize {
 
 #[cfg(not(kani))]
 fn pop(n: usize) -> Vec<u8> {
+    if let Some(b) = fuzz_bytes(n) {
+        return b;
+    }
     let v = VALS.with(|v| v.borrow_mut().pop_front());
     match v {
         Some(b) if b.len() == n => b,
@@ -92,6 +140,9 @@ pub fn assume(c: bool) {
 }
 #[cfg(not(kani))]
 pub fn assume(c: bool) {
+    if !c && FUZZ.with(|f| f.borrow().is_some()) {
+        std::panic::panic_any(AssumeFail);
+    }
     if !c {
         eprintln!("REPLAY: assumption violated by the recorded values");
         std::process::exit(EXIT_ASSUME)
